@@ -57,6 +57,13 @@ for d in sorted(glob.glob(V + '/variants/*/meta.json')) + sorted(glob.glob(V + '
 out.append('| id | source | change | caught by |\n|----|--------|--------|-----------|')
 out.extend(rows)
 
+out.append('\n## Appendix D — behaviour-preserving variants (generated)\n')
+out.append('`benign/` = refactorings and renamings that keep the behaviour; status `silent`: no check reports anything (enforced by the thorough tier, rule R00.benign); status `limitation`: the listed rules still fail closed on it.\n')
+out.append('| id | status | rules that alarm | change |\n|----|--------|------------------|--------|')
+for d in sorted(glob.glob(V + '/benign/*/meta.json')):
+    m = json.load(open(d))
+    out.append('| %s | %s | %s | %s |' % (m['id'], m['status'], m.get('rules_that_alarm', ''), (m.get('what', '') or '').replace('|', '/').replace('\n', ' ')[:160]))
+
 text = '\n'.join(out) + '\n'
 p = V + '/DESIGN.md'
 s = open(p).read()
